@@ -4,6 +4,8 @@ usage: confirm_seeded.py <ID> [<ID> ...]   (reads /tmp/seed_out/<ID>/m*/)"""
 import json, os, subprocess, sys, shutil, time
 
 WT = "/tmp/confirm_wt"
+SEED_OUT = os.environ.get("SEED_OUT", "/tmp/seed_out")
+PREFIX = os.environ.get("SEED_PREFIX", "")
 ENV = dict(os.environ, CARGO_NET_OFFLINE="true")
 ENV.pop("RUSTFLAGS", None)
 
@@ -21,14 +23,14 @@ def main():
     else:
         sh("git checkout -q --detach $(git -C /repo rev-parse HEAD) && git checkout -- . && rm -rf tests")
     for pid in sys.argv[1:]:
-        base = f"/tmp/seed_out/{pid}"
+        base = f"{SEED_OUT}/{pid}"
         only = None
         if "-" in pid:
             pid, only = pid.split("-", 1)
-            base = f"/tmp/seed_out/{pid}"
+            base = f"{SEED_OUT}/{pid}"
         for m in sorted(d for d in os.listdir(base) if d.startswith("m") and os.path.isdir(f"{base}/{d}") and (only is None or d == only)):
             src = f"{base}/{m}"
-            name = f"{pid}-{m}"
+            name = f"{pid}-{PREFIX}{m}"
             meta = json.load(open(f"{src}/meta.json"))
             res = {"checked_at_repo_head": subprocess.run(["git","-C","/repo","rev-parse","HEAD"],capture_output=True,text=True).stdout.strip()}
             sh("git checkout -- . && rm -rf tests")
